@@ -113,6 +113,34 @@ func (l *evLog) Tail(n int) string {
 	return sb.String()
 }
 
+// TailFiltered is Tail without the events whose point equals skip and whose argument mentions a
+// continuation frame (long fragmented messages would push everything else out of the tail).
+func (l *evLog) TailFiltered(n int, skip string) string {
+	all := l.Snapshot()
+	evs := all[:0:0]
+	for _, e := range all {
+		if e.Point == skip && strings.Contains(e.Arg, "op=0 fin=false") {
+			continue
+		}
+		if (e.Point == "ws.writer.locked" && e.Arg == "ping") || (e.Point == "px.frame" && (strings.Contains(e.Arg, "op=9") || strings.Contains(e.Arg, "op=10"))) {
+			continue
+		}
+		evs = append(evs, e)
+	}
+	if len(evs) > n {
+		evs = evs[len(evs)-n:]
+	}
+	var sb strings.Builder
+	for _, e := range evs {
+		side := "s"
+		if e.Client {
+			side = "c"
+		}
+		fmt.Fprintf(&sb, "%d@%dus %s[%s] %s | ", e.Seq, e.T/1000, e.Point, side, e.Arg)
+	}
+	return sb.String()
+}
+
 // ---------------------------------------------------------------------------
 // Hook policies
 
